@@ -434,6 +434,12 @@ class Interp(object):
             body = self.py_eq(st, va.get(k), vb.get(k))
             return AND(EQ(va.len, vb.len),
                        T("(forall ((%s Int)) (=> (and (<= 0 %s) (< %s %s)) %s))" % (k.s, k.s, k.s, va.len.s, body.s), "Bool"))
+        def dictlike(x):
+            return (isinstance(x, Ref) and isinstance(st.heap[x.cid], (ValCell, PyDictCell))) or \
+                   (isinstance(x, Opaque) and x.sort == "Val")
+        if dictlike(a) and dictlike(b):
+            from .dicts import dterm
+            return EQ(dterm(self, st, a), dterm(self, st, b))
         if isinstance(a, Ref) and isinstance(b, Ref):
             ca, cb = st.heap[a.cid], st.heap[b.cid]
             if isinstance(ca, ValCell) and isinstance(cb, ValCell):
@@ -573,7 +579,14 @@ class Interp(object):
             n = len(e.keys)
             keys, values = vals[:n], vals[n:]
             if not all(isinstance(k, Str) for k in keys):
-                raise Unsupported("dict display with non-constant keys")
+                # a display with computed keys: a dictionary value
+                from .dicts import dterm
+                self.reg.need_val()
+                m = "emptymap"
+                for k, v in zip(keys, values):
+                    m = "(store %s %s (some %s))" % (m, self.key_term(k).s, dterm(self, s, v).s)
+                out.append((s, self.new_cell(s, ValCell(T("(D %s)" % m, "Val")))))
+                continue
             out.append((s, self.new_cell(s, PyDictCell({k.s: v for k, v in zip(keys, values)}))))
         return out
 
